@@ -5,6 +5,7 @@ from stdin, executes it against the real Spil code in-process, and writes one ca
 answer per line.  Mirrors the protocol of lean/Spil/Driver.lean.
 """
 import sys, os, json, io, traceback
+sys.path.insert(0, os.path.dirname(os.path.abspath(__file__)))
 
 # keep Spil's prints (demo configuration banner, resolva log handler) away from the protocol
 _real_stdout = sys.stdout
@@ -213,6 +214,9 @@ def step(j):
             return f.find_one(j["s"], as_sid=False)
         if m == "exists":
             return f.exists(j["s"])
+    if op == "oracle":
+        import oracles
+        return oracles.ORACLES[j["prop"]](j["input"])
     if op == "extrapolate_templates":
         old = conf_util.sidtype_keytype_sep
         conf_util.sidtype_keytype_sep = j["sep"]
